@@ -177,6 +177,36 @@ def run(repo: Repo, tier: str) -> Report:
         sent = [s for s in d.stores if s.rhs.key() == "nodata" and s.guards and s.guards[-1].startswith("eq0[sum[ne0[")]
         ob("R-FORMULA", drv, "an all-nodata pixel is written as nodata without calling the fit", len(sent) == 1,
            f"stores of nodata: {[norm_stmt(s.stmt) for s in d.stores if s.rhs.key() == 'nodata']}", sent[0].stmt if sent else f"{drv}: all-nodata store")
+    # every pixel / group iteration leaves a defined value in the output: either the output starts nodata-filled, or every path
+    # through the iteration (including the one where the fit returns an all-nodata series) stores into it
+    from ..cfg import CFG
+    for drv in ("gammastd_yxt", "gammastd_grp"):
+        k = spi.kernels[drv]
+        cfg = CFG(k.node)
+        out = k.outputs[0] if k.outputs else None
+        if out is None:
+            rets = [n.value.id for n in ast.walk(k.node) if isinstance(n, ast.Return) and isinstance(n.value, ast.Name)]
+            out = rets[0] if rets else None
+        if out is None:
+            raise AnalysisError(f"missing anchor: output array of {drv}")
+        prefilled = [st for st in ast.walk(k.node) if isinstance(st, ast.Assign) and isinstance(st.targets[0], ast.Name) and st.targets[0].id == out
+                     and isinstance(st.value, ast.Call) and ast.unparse(st.value.func).split(".")[-1] in ("full_like", "full")
+                     and any(ast.unparse(a) == nd for a in st.value.args[1:2])]
+        loops = [n for n in cfg.nodes if n.kind == "for" and any(isinstance(c, ast.Call) and ast.unparse(c.func) == "gammastd" for c in ast.walk(n.stmt))]
+        if not loops:
+            raise AnalysisError(f"missing anchor: loop calling gammastd in {drv}")
+        L = max(loops, key=lambda n: n.stmt.lineno)      # innermost
+        W = set()
+        for n in cfg.stmt_nodes():
+            if n.kind == "stmt" and isinstance(n.stmt, ast.Assign) and any(n.stmt is x for x in ast.walk(L.stmt)):
+                t = n.stmt.targets[0]
+                if isinstance(t, ast.Subscript) and isinstance(t.value, ast.Name) and t.value.id == out:
+                    W.add(n.id)
+        first = [s_ for s_, lab in L.succ if lab == "body"]
+        every = bool(first) and bool(W) and all(cfg.must_pass(f_, W, target=L) for f_ in first)
+        ob("R-MUSTWRITE", drv, "every pixel/group iteration leaves a defined value in the output (unfittable ones: nodata)", bool(prefilled) or every,
+           f"`{out}` is not created nodata-filled and a path through the iteration at line {L.line} (e.g. the fit returning an all-nodata series) stores nothing into it: "
+           f"the cells keep whatever the buffer held", L.stmt, kind="nodata-prefilled" if prefilled else "must-pass-through per iteration")
     # ---- 4. loop invariance in the cell loop
     cell = [s for s in sc.stores if s.region.kind == "loop" and s.arr not in spi.k["gammastd"].params]
     if not cell:
@@ -196,6 +226,8 @@ def run(repo: Repo, tier: str) -> Report:
     celldep = sorted(a for a in _flatten_atoms(final.rhs.key()) if f"[{ix}]" in a and not a.startswith(f"{x}[{ix}]"))
     ob("R-LOOPINV", "gammastd", "the only cell-dependent input of the index is the observation x[ix]", not celldep,
        f"other cell-dependent terms: {celldep}", f"cell dependence of {norm_stmt(final.stmt)}")
+    from ..rules import r_truthy
+    r_truthy(rep, repo, "PixelAlgorithms", "spi", ["nodata"], "0 is a legitimate nodata value (it is the one the test-suite uses); a truth test silently replaces or drops it")
     rep.floor("C08 obligations", len(rep.obls), 20)
     return rep
 
